@@ -44,6 +44,42 @@ def is_some_of(t):
     return None, None
 
 
+def header_layout(v):
+    """The value a header parser returns with its remainder - the addressed node and the optional path - as a pair
+    `(node, Option<path>)` or a two-field struct: -> (node term, path term, selector of node, selector of path), where a
+    selector is ("tproj", i) or ("field", name); the path component is the one that is an Option constructor."""
+    comps = []
+    if v[0] == "tuple" and len(v[1]) == 2:
+        comps = [(("tproj", i), t) for i, t in enumerate(v[1])]
+    elif v[0] == "struct" and len(v[2]) == 2:
+        comps = [(("field", n), t) for n, t in v[2]]
+    if len(comps) != 2:
+        return None
+    opt = [i for i, (sel, t) in enumerate(comps) if t[0] == "ctor" and t[1] in (SOME, pathsum.NONE)]
+    if len(opt) != 1:
+        return None
+    h = opt[0]
+    n = 1 - h
+    return comps[n][1], comps[h][1], comps[n][0], comps[h][0]
+
+
+def select(sel, base):
+    return ("tproj", base, sel[1]) if sel[0] == "tproj" else ("field", base, sel[1])
+
+
+def header_selectors(sk):
+    """selectors of (node, path) in the header parsers' value, read from the accepting paths of the compound header parser"""
+    f = sk.fns.get(P + "compound_command_program_header")
+    out = set()
+    for x in (f["exits"] if f else []):
+        r = sk.exit_result(x)
+        if r and r[0][0] == "ok":
+            lay = header_layout(strip_sites(sk.val_of(r[0][1])))
+            if lay:
+                out.add((lay[2], lay[3]))
+    return next(iter(out)) if len(out) == 1 else None
+
+
 def check(ck, lib, sk, rid, which):
     f = sk.fns.get(P + "parse")
     if not ck.anchor(rid, P + "parse", f):
@@ -171,11 +207,13 @@ def check(ck, lib, sk, rid, which):
                 ck.bad(rid, key + ":header-app", "%d applications of command_program_header on an accepting path" % len(hdr))
             else:
                 hv = value_of(hdr[0])
+                sels = header_selectors(sk)
                 for name, idx in (("node", 0), ("header", 1)):
                     if name in which:
                         got = fields.get(name)
-                        ck.judge(got == ("tproj", hv, idx), rid, key + ":" + name, "%s is component %d of the header parser's value" % (name, idx),
-                                 "field %s of the returned call is `%s`, not component %d of what command_program_header returned" % (name, show_term(got) if got else None, idx))
+                        want = select(sels[idx], hv) if sels else None
+                        ck.judge(want is not None and got == want, rid, key + ":" + name, "%s is the %s component of the header parser's value" % (name, "node" if idx == 0 else "path"),
+                                 "field %s of the returned call is `%s`, not the %s component of what command_program_header returned" % (name, show_term(got) if got else None, "node" if idx == 0 else "path"))
         if "args" in which:
             a = fields.get("args")
             ar = [c for c in steps if c[1] and c[1][0] == "factory" and c[1][1] == P + "arguments"]
